@@ -55,7 +55,7 @@ def census (name : String) (b : Block) : Option Nat :=
   | _ => none
 
 mutual
-  /-- some if-expression has two or more `elseif` branches (finding F25: tested in reverse order) -/
+  /-- some if-expression has two or more `elseif` branches (finding F25, fixed: kept for statistics) -/
   partial def manyElifsE : Expr → Bool
     | .paren e | .un _ e | .field e _ => manyElifsE e
     | .cast e t => manyElifsE e || manyElifsTy t
@@ -104,8 +104,7 @@ end
 def hypothesis (name : String) (b : Block) : Option Bool :=
   match name with
   | "remove_continue" => some (C07.continueInLoops b)
-  | "remove_if_expression" => some (!manyElifsB b)
-  | "remove_compound_assignment" | "remove_interpolated_string" | "remove_floor_division"
+  | "remove_if_expression" | "remove_compound_assignment" | "remove_interpolated_string" | "remove_floor_division"
   | "convert_luau_number" | "make_assignment_local" | "remove_types" | "remove_attribute" => some true
   | _ => none
 
